@@ -291,6 +291,28 @@ def dropTopWs : Nat → List FEv → List FEv
 def parseText (t : Str) : Option (List XEv) :=
   (Reader.tokenize t).bind fun toks => reparseX PSt.init (dropTopWs 0 toks)
 
+/-- expat reports `<a></a>` and `<a/>` alike (start, end), and `EmptyTagFilter`
+    turns a START directly followed by its END into EMPTY: on the token list, a
+    start tag directly followed by an end tag is an empty-element tag -/
+def collapseEmpty : List FEv → List FEv
+  | .start n a :: .end_ m :: es =>
+      if n = m then .empty n a :: collapseEmpty es else .start n a :: .end_ m :: collapseEmpty es
+  | e :: es => e :: collapseEmpty es
+  | [] => []
+
+/-- `XMLParser(text)` followed by `EmptyTagFilter` for ANY document text (source
+    documents, not only serializer output): `parseText` with `<a></a>` read as
+    `<a/>`.  On texts without a start tag directly followed by an end tag the
+    two agree (`parseSource_eq_parseText`). -/
+def parseSource (t : Str) : Option (List XEv) :=
+  (Reader.tokenize t).bind fun toks => reparseX PSt.init (collapseEmpty (dropTopWs 0 toks))
+
+/-- no start tag directly followed by an end tag -/
+def noStartEnd : List FEv → Bool
+  | .start _ _ :: .end_ _ :: _ => false
+  | _ :: es => noStartEnd es
+  | [] => true
+
 /-- no START_NS / END_NS event -/
 def noNs : XEv → Bool
   | .ev (.startNs _ _) => false
@@ -301,6 +323,25 @@ def noNs : XEv → Bool
     namespaces live in the qualified names only; `NamespaceFlattener` has to
     make up every declaration) -/
 def builderShaped (xs : List XEv) : Bool := xs.all noNs
+
+/-! ### no element written `<a></a>` (side condition of the idempotence theorems stated with `parseSource`) -/
+
+def isStartX : XEv → Bool
+  | .ev (.start _ _) => true
+  | _ => false
+def isEndX : XEv → Bool
+  | .ev (.end_ _) => true
+  | _ => false
+
+/-- the first event that is no namespace event is an END -/
+def headEndX : List XEv → Bool
+  | [] => false
+  | x :: xs => if noNs x then isEndX x else headEndX xs
+
+/-- no START followed by END with nothing but namespace events between them -/
+def noStartEndX : List XEv → Bool
+  | [] => true
+  | x :: xs => !(isStartX x && headEndX xs) && noStartEndX xs
 
 /-- the hypothesis of `ser_idempotent_partial`, checked by running the flattener:
     START_NS events come in runs directly in front of their start tag, never
